@@ -11,22 +11,22 @@
   * `svg_path_wellformed`       the events those calls denote are a well-formed path.
   * `relative_is_offset`, `hv_lines`, `close_returns_to_start`, `implicit_move_to`
                                 the individual SVG rules, as equations on single steps.
-  * `smooth_reflects_same_kind_partial`
-                                smooth control point = reflection iff the previous command was a
-                                curve of the same kind — for previous commands other than arcs.
-  * `smooth_reflects_same_kind_witness`
-                                the full statement is FALSE: after `M C A S` the model (and lyon)
-                                reflects the point where the arc started.  Genuine lyon defect
-                                (`WithSvg::arc` sets `last_ctrl` but not `last_cmd`), finding
-                                `C15-smooth-after-arc`.
-  * `svg_semantics_partial`     whole-sequence refinement: the calls are exactly those of the SVG
-                                reference semantics (`Model/Path/SvgSpec.lean`) provided no smooth
-                                command directly follows an arc command; `svg_semantics_witness`
-                                shows the proviso is needed.
+  * `smooth_reflects_same_kind` smooth control point = reflection iff the previous command was a
+                                curve of the same kind, else the current point — for EVERY previous
+                                command, arcs included.
+  * `svg_semantics`             whole-sequence refinement: for EVERY sequence the calls are exactly
+                                those of the SVG reference semantics (`Model/Path/SvgSpec.lean`).
+
+  Both were `…_partial` (arcs excluded, with `decide`-checked counterexamples) until lyon commit
+  059d9c0c ("WithSvg::arc resets last_ctrl …") repaired finding `C15-smooth-after-arc`; the model
+  mirrors the repaired code and the former witnesses are kept below as comments.
+  The only algebra needed is `hα : ∀ a, a + (a - a) = a` (reflecting the current point about
+  itself): true in ℤ, in every additive group, and for finite IEEE numbers.
 
   Not covered by theorems: the numeric geometry of arcs (`Geo`: start point, pieces, end point) —
   the oracle checks on the real code that an arc starts at the current point and ends at its
-  target (finding `C15-elliptic-arc-start-angle` lives there); IEEE rounding of `cur + v`.
+  target (finding `C15-elliptic-arc-start-angle`, repaired by lyon commit 20bcfb88, lived
+  there); IEEE rounding of `cur + v`.
 -/
 import LyonVerif.Lemmas.Svg
 
@@ -156,34 +156,78 @@ def reflected (cur : Pt α) : Option (Pt α) → Pt α
 
 /-- The implicit control point of a smooth command is `current + (current − ctrl)`
 (= `2·current − ctrl`, see `reflection_is_2c_minus_ctrl`) iff the previous command `c` was a
-curve of the same kind, with `ctrl` that command's (second) control point; otherwise it is the
-current point.  PARTIAL: `c` must not be an arc command (`arcTo`, `relArcTo`, `arc`) — see
-`smooth_reflects_same_kind_witness`.  `hd`: `c` was actually drawn, i.e. not the first command
-of an empty path (which is replaced by a move-to: then the control point is the current point,
-second part).  `hi` is the reachable-state invariant of `svg_trace_prefix_valid`
-(`need_moveto` ⇒ `last_cmd` is `Close`/`End`). -/
-theorem smooth_reflects_same_kind_partial (g : Geo α ρ) (s : St α) (c : Cmd α ρ)
-    (hc : c.isArc = false)
-    (hi : s.needMoveTo = true → Verb.begin.code < s.lastCmd.code) :
+curve of the same kind, with `ctrl` that command's (second) control point; otherwise — after a
+move, line, close, curve of the other kind, or ARC — it is the current point.
+First part: `c` was actually drawn, i.e. it is not the first command of an empty path (which is
+replaced by a move-to: then the control point is the current point, second part).
+`hi` is the reachable-state invariant of `svg_trace_prefix_valid` (`need_moveto` ⇒ `last_cmd` is
+`Close`/`End`); `hα` see the file header. -/
+theorem smooth_reflects_same_kind (hα : ∀ a : α, a + (a - a) = a) (g : Geo α ρ) (s : St α)
+    (c : Cmd α ρ) (hi : s.needMoveTo = true → Verb.begin.code < s.lastCmd.code) :
     (¬(s.needMoveTo = true ∧ s.isEmpty = true) →
       smoothCubicCtrl (step g s c).1 = reflected (step g s c).1.cur (cubicKind s c) ∧
       smoothQuadCtrl (step g s c).1 = reflected (step g s c).1.cur (quadKind s c)) ∧
     ((s.needMoveTo = true ∧ s.isEmpty = true) →
       smoothCubicCtrl (step g s c).1 = (step g s c).1.cur ∧
       smoothQuadCtrl (step g s c).1 = (step g s c).1.cur) := by
-  constructor
-  · intro hd
-    cases hn : s.needMoveTo <;> cases he : s.isEmpty <;>
-      first
-      | (exfalso; exact hd ⟨hn, he⟩)
-      | (cases c <;> cases hl : s.lastCmd <;>
-          simp_all [Cmd.isArc, step, moveTo, close, lineTo, quadTo, cubicTo, beginIfNeeded,
-            smoothCubicCtrl, smoothQuadCtrl, reflected, cubicKind, quadKind, relToAbs,
-            Verb.code])
-  · rintro ⟨hn, he⟩
-    cases c <;> cases hl : s.lastCmd <;>
-      simp_all [Cmd.isArc, step, moveTo, close, lineTo, quadTo, cubicTo, beginIfNeeded,
-        smoothCubicCtrl, smoothQuadCtrl, Verb.code]
+  -- a state whose `last_ctrl` is the current point reflects nothing, whatever `last_cmd` says
+  have self_refl : ∀ t : St α, t.lastCtrl = t.cur →
+      smoothCubicCtrl t = t.cur ∧ smoothQuadCtrl t = t.cur := by
+    intro t ht
+    unfold smoothCubicCtrl smoothQuadCtrl
+    cases hl : t.lastCmd <;> simp [ht, pt_refl hα]
+  -- arc commands that go through `arc`
+  have harc : ∀ o : ArcOut α, smoothCubicCtrl (arc s o).1 = (arc s o).1.cur ∧
+      smoothQuadCtrl (arc s o).1 = (arc s o).1.cur :=
+    fun o => self_refl _ (arc_lastCtrl s o)
+  -- everything else (including straight-line arcs, which are `line_to`)
+  have hline : ∀ p : Pt α,
+      (¬(s.needMoveTo = true ∧ s.isEmpty = true) →
+        smoothCubicCtrl (lineTo s p).1 = (lineTo s p).1.cur ∧
+        smoothQuadCtrl (lineTo s p).1 = (lineTo s p).1.cur) ∧
+      ((s.needMoveTo = true ∧ s.isEmpty = true) →
+        smoothCubicCtrl (lineTo s p).1 = (lineTo s p).1.cur ∧
+        smoothQuadCtrl (lineTo s p).1 = (lineTo s p).1.cur) := by
+    intro p
+    constructor
+    · intro hd
+      cases hn : s.needMoveTo <;> cases he : s.isEmpty <;>
+        first
+        | (exfalso; exact hd ⟨hn, he⟩)
+        | simp [lineTo, beginIfNeeded, moveTo, hn, he, smoothCubicCtrl, smoothQuadCtrl]
+    · rintro ⟨hn, he⟩
+      simp [lineTo, beginIfNeeded, moveTo, hn, he, smoothCubicCtrl, smoothQuadCtrl]
+  have harcTo : ∀ (p : Pt α) (o : SvgArcOut α),
+      (¬(s.needMoveTo = true ∧ s.isEmpty = true) →
+        smoothCubicCtrl (arcTo s p o).1 = (arcTo s p o).1.cur ∧
+        smoothQuadCtrl (arcTo s p o).1 = (arcTo s p o).1.cur) ∧
+      ((s.needMoveTo = true ∧ s.isEmpty = true) →
+        smoothCubicCtrl (arcTo s p o).1 = (arcTo s p o).1.cur ∧
+        smoothQuadCtrl (arcTo s p o).1 = (arcTo s p o).1.cur) := by
+    intro p o
+    cases o with
+    | straight => exact hline p
+    | arc o => exact ⟨fun _ => harc o, fun _ => harc o⟩
+  cases c with
+  | arcTo r p => simpa [step, reflected, cubicKind, quadKind] using harcTo p _
+  | relArcTo r v => simpa [step, reflected, cubicKind, quadKind] using harcTo _ _
+  | arc r => exact ⟨fun _ => by simpa [step, reflected, cubicKind, quadKind] using harc _,
+      fun _ => by simpa [step] using harc _⟩
+  | _ =>
+    clear harcTo hline harc self_refl
+    constructor
+    · intro hd
+      cases hn : s.needMoveTo <;> cases he : s.isEmpty <;>
+        first
+        | (exfalso; exact hd ⟨hn, he⟩)
+        | (cases hl : s.lastCmd <;>
+            simp_all [step, moveTo, close, lineTo, quadTo, cubicTo, beginIfNeeded,
+              smoothCubicCtrl, smoothQuadCtrl, reflected, cubicKind, quadKind, relToAbs,
+              Verb.code])
+    · rintro ⟨hn, he⟩
+      cases hl : s.lastCmd <;>
+        simp_all [step, moveTo, close, lineTo, quadTo, cubicTo, beginIfNeeded,
+          smoothCubicCtrl, smoothQuadCtrl, Verb.code]
 
 /-- `current + (current − ctrl)` is `2·current − ctrl` (over the integers, the lattice the tie
 runs on). -/
@@ -192,7 +236,7 @@ theorem reflection_is_2c_minus_ctrl (cur k : Pt Int) :
   show (⟨cur.x + (cur.x - k.x), cur.y + (cur.y - k.y)⟩ : Pt Int) = _
   congr 1 <;> omega
 
-/-! #### The defect: a smooth command after an arc -/
+/-! #### A smooth command after an arc (the former defect) -/
 
 /-- a toy arc geometry: every `arc_to` is one quadratic starting at the current point -/
 def wGeo : Geo Int Unit where
@@ -204,50 +248,58 @@ def wCmds : List (Cmd Int Unit) :=
   [.moveTo ⟨0, 0⟩, .cubicTo ⟨0, 10⟩ ⟨10, 10⟩ ⟨10, 0⟩, .arcTo () ⟨20, 0⟩,
    .smoothCubicTo ⟨30, 10⟩ ⟨30, 0⟩]
 
-/-- After `C … A …` the current point is (20,0) and the previous command is an arc, so SVG puts
-the smooth cubic's first control point at (20,0); the model of `WithSvg` (like lyon) reflects
-(10,0) — the point where the arc *started* — and uses (30,0). -/
-theorem smooth_reflects_same_kind_witness :
+/-
+  Former witness (true of the model of lyon BEFORE commit 059d9c0c, no longer true):
+
+    theorem smooth_reflects_same_kind_witness :
+        (run wGeo (St.init 0) (wCmds.take 3)).1.cur = ⟨20, 0⟩ ∧
+        smoothCubicCtrl (run wGeo (St.init 0) (wCmds.take 3)).1 = ⟨30, 0⟩ ∧
+        runBuild wGeo 0 wCmds = [… .cubic ⟨30, 0⟩ ⟨30, 10⟩ ⟨30, 0⟩ (), .end_ false]
+    theorem svg_semantics_witness :
+        runBuild wGeo 0 wCmds ≠ specBuild wGeo 0 wCmds
+
+  `arc` overwrote `last_ctrl` with the position where the arc started and left `last_cmd` at
+  `CubicTo`, so the smooth cubic reflected (10,0) about (20,0).  The same sequence now:
+-/
+theorem smooth_after_arc_repaired :
     (run wGeo (St.init 0) (wCmds.take 3)).1.cur = ⟨20, 0⟩ ∧
-    smoothCubicCtrl (run wGeo (St.init 0) (wCmds.take 3)).1 = ⟨30, 0⟩ ∧
+    (run wGeo (St.init 0) (wCmds.take 3)).1.lastCmd = .cubicTo ∧
+    smoothCubicCtrl (run wGeo (St.init 0) (wCmds.take 3)).1 = ⟨20, 0⟩ ∧
     runBuild wGeo 0 wCmds =
-      [.begin ⟨0, 0⟩ (), .cubic ⟨0, 10⟩ ⟨10, 10⟩ ⟨10, 0⟩ (), .line ⟨10, 0⟩ (),
-       .quad ⟨15, 5⟩ ⟨20, 0⟩ (), .cubic ⟨30, 0⟩ ⟨30, 10⟩ ⟨30, 0⟩ (), .end_ false] := by
-  decide
-
-/-! ### Whole sequences against the SVG reference semantics -/
-
-/-- For every command sequence in which no smooth command directly follows an arc command, the
-calls received by the wrapped builder (including those of `build`) are exactly the ones the SVG
-reference semantics prescribes.  PARTIAL because of the proviso; `svg_semantics_witness` shows
-it cannot be dropped. -/
-theorem svg_semantics_partial (g : Geo α ρ) (zero : α) (cmds : List (Cmd α ρ))
-    (h : noSmoothAfterArc false cmds = true) :
-    runBuild g zero cmds = specBuild g zero cmds ∧
-      (run g (St.init zero) cmds).1.cur = (Spec.run g (Spec.init zero) cmds).1.cur := by
-  obtain ⟨e, s⟩ := sim_run g cmds false (sim_init zero) (by simp [Spec.init]) h
-  exact ⟨by simp [runBuild, specBuild, e, sim_endIfNeeded s], s.cur⟩
-
-theorem svg_semantics_witness :
-    noSmoothAfterArc false wCmds = false ∧ runBuild wGeo 0 wCmds ≠ specBuild wGeo 0 wCmds ∧
-    specBuild wGeo 0 wCmds =
       [.begin ⟨0, 0⟩ (), .cubic ⟨0, 10⟩ ⟨10, 10⟩ ⟨10, 0⟩ (), .line ⟨10, 0⟩ (),
        .quad ⟨15, 5⟩ ⟨20, 0⟩ (), .cubic ⟨20, 0⟩ ⟨30, 10⟩ ⟨30, 0⟩ (), .end_ false] := by
   decide
 
+/-! ### Whole sequences against the SVG reference semantics -/
+
+/-- For EVERY command sequence, the calls received by the wrapped builder (including those of
+`build`) are exactly the ones the SVG reference semantics prescribes, and the current point
+agrees.  (Was `svg_semantics_partial`, restricted to sequences without a smooth command directly
+after an arc, before lyon commit 059d9c0c.) -/
+theorem svg_semantics (hα : ∀ a : α, a + (a - a) = a) (g : Geo α ρ) (zero : α)
+    (cmds : List (Cmd α ρ)) :
+    runBuild g zero cmds = specBuild g zero cmds ∧
+      (run g (St.init zero) cmds).1.cur = (Spec.run g (Spec.init zero) cmds).1.cur := by
+  obtain ⟨e, s⟩ := sim_run hα g cmds (sim_init zero)
+  exact ⟨by simp [runBuild, specBuild, e, sim_endIfNeeded s], s.cur⟩
+
 /-! ### Non-vacuity -/
 
-/-- an arc-free sequence with relative, smooth, H/V, close and draw-after-close commands -/
+/-- the algebraic hypothesis `hα` holds on the integers -/
+example : ∀ a : Int, a + (a - a) = a := by intro a; omega
+
+/-- relative, smooth, H/V, close, draw-after-close, arc and smooth-after-arc commands -/
 def exCmds : List (Cmd Int Unit) :=
   [.lineTo ⟨1, 0⟩, .relCubicTo ⟨0, 3⟩ ⟨3, 3⟩ ⟨3, 0⟩, .smoothCubicTo ⟨7, 5⟩ ⟨9, 1⟩, .hLineTo 2,
-   .close, .relQuadTo ⟨1, 1⟩ ⟨2, 0⟩, .smoothRelQuadTo ⟨2, 0⟩, .arcTo () ⟨0, 0⟩, .lineTo ⟨5, 5⟩]
+   .close, .relQuadTo ⟨1, 1⟩ ⟨2, 0⟩, .smoothRelQuadTo ⟨2, 0⟩, .arcTo () ⟨0, 0⟩,
+   .smoothQuadTo ⟨5, 5⟩]
 
-example : noSmoothAfterArc false exCmds = true := by decide
+example : runBuild wGeo 0 exCmds = specBuild wGeo 0 exCmds := by decide
 
 example : runBuild wGeo 0 exCmds =
     [.begin ⟨1, 0⟩ (), .cubic ⟨1, 3⟩ ⟨4, 3⟩ ⟨4, 0⟩ (), .cubic ⟨4, -3⟩ ⟨7, 5⟩ ⟨9, 1⟩ (),
      .line ⟨2, 1⟩ (), .end_ true, .begin ⟨1, 0⟩ (), .quad ⟨2, 1⟩ ⟨3, 0⟩ (), .quad ⟨4, -1⟩ ⟨5, 0⟩ (),
-     .line ⟨5, 0⟩ (), .quad ⟨15, 5⟩ ⟨0, 0⟩ (), .line ⟨5, 5⟩ (), .end_ false] := by decide
+     .line ⟨5, 0⟩ (), .quad ⟨15, 5⟩ ⟨0, 0⟩ (), .quad ⟨0, 0⟩ ⟨5, 5⟩ (), .end_ false] := by decide
 
 /-- hypotheses of `close_returns_to_start` / `implicit_move_to_after_close` -/
 example : (run wGeo (St.init 0) (exCmds.take 4)).1.needMoveTo = false ∧
@@ -258,8 +310,8 @@ example : (St.init (0 : Int)).needMoveTo = true ∧ (St.init (0 : Int)).isEmpty 
     (run wGeo (St.init 0) (exCmds.take 5)).1.needMoveTo = true ∧
     (run wGeo (St.init 0) (exCmds.take 5)).1.isEmpty = false := by decide
 
-/-- hypotheses of `smooth_reflects_same_kind_partial` -/
-example : (Cmd.relCubicTo ⟨0, 3⟩ ⟨3, 3⟩ ⟨3, 0⟩ : Cmd Int Unit).isArc = false ∧
+/-- hypotheses of `smooth_reflects_same_kind` -/
+example :
     ((run wGeo (St.init 0) (exCmds.take 1)).1.needMoveTo = true →
       Verb.begin.code < (run wGeo (St.init 0) (exCmds.take 1)).1.lastCmd.code) ∧
     ¬((run wGeo (St.init 0) (exCmds.take 1)).1.needMoveTo = true ∧
